@@ -30,11 +30,66 @@ def obs_order(sql):
     return [l for l in sql.split('\n') if l.startswith('CREATE TABLE')]
 
 
+def gen_edits(rng, spec):
+    """a few in-place edits (renames, a type, a schema) and the spec they lead to: the database is asked for its SQL before
+    them and again after them - "for every database" includes one that has been rendered before and edited since"""
+    s2 = copy.deepcopy(spec)
+    edits = []
+    for _ in range(rng.randint(1, 3)):
+        ti = rng.randrange(len(s2['tables']))
+        t = s2['tables'][ti]
+        kind = rng.choice(['tname', 'tname', 'cname', 'cname', 'ctype', 'tschema'])
+        if kind == 'tname':
+            new = t['name'] + '_v2'
+            if any(x['name'] == new for x in s2['tables']):
+                continue
+            t['name'] = new
+            edits.append(['tname', ti, new])
+        elif kind == 'tschema':
+            new = 'moved'
+            if any(x['name'] == t['name'] and x['schema'] == new for x in s2['tables']):
+                continue
+            t['schema'] = new
+            edits.append(['tschema', ti, new])
+        elif t['columns']:
+            ci = rng.randrange(len(t['columns']))
+            c = t['columns'][ci]
+            if kind == 'cname':
+                new = c['name'] + '_v2'
+                if any(x['name'] == new for x in t['columns']):
+                    continue
+                c['name'] = new
+                edits.append(['cname', ti, ci, new])
+            elif not isinstance(c['type'], dict):
+                c['type'] = 'bigint'
+                edits.append(['ctype', ti, ci, 'bigint'])
+    return s2, edits
+
+
 def impl_job(job):
     """-> dict with impl observations for one spec."""
-    pid, spec = job
+    pid, spec = job[:2]
+    edits = job[2] if len(job) > 2 else None
     try:
         db, hd = GD.build(spec)
+        if edits:
+            # first reading: every rendering the check looks at is evaluated once before the edits
+            O.run(lambda: db.sql)
+            for x in hd['refs']:
+                O.run(lambda x=x: x.sql)
+            for t in hd['tables']:
+                O.run(lambda t=t: t.sql)
+            for e in edits:
+                t = hd['tables'][e[1]]
+                if e[0] == 'tname':
+                    t.name = e[2]
+                elif e[0] == 'tschema':
+                    t.schema = e[2]
+                elif e[0] == 'cname':
+                    t.columns[e[2]].name = e[3]
+                else:
+                    t.columns[e[2]].type = e[3]
+            spec = job[3]
     except Exception as e:  # noqa: BLE001
         return {'skip': 'build:' + type(e).__name__}
     try:
@@ -42,6 +97,8 @@ def impl_job(job):
     except O.OutOfModel as e:
         return {'skip': 'outOfModel:' + str(e)}
     r = {'dump': dump}
+    if edits:
+        r['history'] = {'spec_before': job[1], 'edits': edits}
     r['sql'] = O.run(lambda: db.sql)
     if pid == 'C03':
         r['elems'] = {
@@ -90,6 +147,21 @@ def gen_specs(ctx, pid):
             spec['tables'].insert(rng.randrange(len(spec['tables']) + 1) if not spec['refs'] and not spec['groups'] else len(spec['tables']),
                                   {'name': 'empty_%d' % (i % 7), 'schema': rng.choice(['public', 'hr']), 'alias': None, 'columns': [], 'indexes': [],
                                    'note': '', 'header_color': None, 'comment': None, 'abstract': False, 'props': []})
+        if wild and i % 5 == 2:
+            # the empty schema is a schema like any other (only `public` is left out of qualified names): a namesake of a
+            # public table living there is another table
+            import copy as _copy
+            pub = [t for t in spec['tables'] if t['schema'] == 'public']
+            if pub and not any(t['schema'] == '' for t in spec['tables']):
+                twin = _copy.deepcopy(rng.choice(pub))
+                twin.update(schema='', alias=None, indexes=[])
+                spec['tables'].append(twin)
+                if rng.random() < 0.5 and pid != 'C03':
+                    # and something refers to it
+                    ti = len(spec['tables']) - 1
+                    src = rng.randrange(ti)
+                    spec['refs'].append({'type': rng.choice(['>', '<', '-']), 't1': src, 'col1': [0], 't2': ti, 'col2': [0], 'name': None,
+                                         'comment': None, 'on_update': None, 'on_delete': None, 'inline': rng.random() < 0.6})
         if pid == 'C18':
             # more inline references, fewer distractions
             for r in spec['refs']:
@@ -108,7 +180,17 @@ def run_sql_check(ctx, pid, extra_parts=None):
     except DriverError as e:
         ctx.notes.append(str(e))
     specs = gen_specs(ctx, pid)
-    res = core.pmap(impl_job, [(pid, s) for s in specs])
+    jobs = []
+    for i, s_ in enumerate(specs):
+        if i % 4 == 1 and s_['tables']:
+            s2, edits = gen_edits(ctx.rng, s_)
+            if edits:
+                jobs.append((pid, s_, edits, s2))
+                specs[i] = s2       # what the database is after the edits: the oracle and the model speak about that
+                ctx.count('history:rendered-edited-rendered')
+                continue
+        jobs.append((pid, s_))
+    res = core.pmap(impl_job, jobs)
     ok_items = [(s, r) for s, r in zip(specs, res) if 'skip' not in r]
     for s, r in zip(specs, res):
         if 'skip' in r:
@@ -142,7 +224,7 @@ def run_sql_check(ctx, pid, extra_parts=None):
                 if reason == 'HostsFirst' and model is not None and 'ok' in model[k] \
                         and obs_order(model[k]['ok']) != obs_order(r['sql'][1]):
                     reason = None   # not the recorded finding: the order is not the model's hosts-first order
-                ctx.fail(what, {'op': 'sql', 'spec': spec}, reason=reason, detail=detail, sql=r['sql'][1])
+                ctx.fail(what, {'op': 'sql', 'spec': spec, 'history': r.get('history')}, reason=reason, detail=detail, sql=r['sql'][1])
         else:
             ctx.count('oracle:not-readable(wild spec or error)')
         # correspondence
@@ -194,7 +276,10 @@ def replay_sql(path, pid):
     print(json.dumps({k: v for k, v in case.items() if k != 'case'}, indent=1)[:3000])
     spec = c.get('spec') or c.get('db')
     if spec:
-        r = impl_job((pid, spec))
+        h = c.get('history')
+        r = impl_job((pid, h['spec_before'], h['edits'], spec)) if h else impl_job((pid, spec))
+        if h:
+            print('history: build, render, then edits', h['edits'])
         print('impl sql:', r.get('sql'))
         print('oracle:', r.get('oracle'))
         with Driver() as d:
